@@ -30,8 +30,12 @@ func BreakerHandler(method, path string, metrics *stat.Metrics) func(handler htt
 			}
 
 			cw := &response.WithCodeResponseWriter{Writer: w}
+			finished := false
 			defer func() {
-				if cw.Code < http.StatusInternalServerError {
+				if !finished {
+					// next 未正常返回（panic）：记为失败；不 recover，panic 继续向上传播。
+					promise.Reject("panic")
+				} else if cw.Code < http.StatusInternalServerError {
 					promise.Accept()
 				} else {
 					promise.Reject(fmt.Sprintf("%d %s", cw.Code, http.StatusText(cw.Code)))
@@ -39,6 +43,7 @@ func BreakerHandler(method, path string, metrics *stat.Metrics) func(handler htt
 			}()
 
 			next.ServeHTTP(cw, r)
+			finished = true
 		})
 	}
 }
